@@ -712,6 +712,8 @@ fn hash_term_set<H: std::hash::Hasher>(set: &TermSetType, state: &mut H) {
 /// * 如「占位符」就没有「进一步散列化」的组分
 impl Hash for Term {
     fn hash<H: std::hash::Hasher>(&self, state: &mut H) {
+        #[cfg(narsese_verif)]
+        crate::verif_hooks::yield_point(4);
         match self {
             // 原子词项 //
             Word(word) => word.hash(state),
@@ -781,6 +783,8 @@ impl Hash for Term {
 /// 实现/判等逻辑
 impl PartialEq for Term {
     fn eq(&self, other: &Self) -> bool {
+        #[cfg(narsese_verif)]
+        crate::verif_hooks::yield_point(5);
         match (self, other) {
             // 原子词项 //
             // 单元结构
